@@ -293,6 +293,15 @@ for _k in DATA_KINDS:
                 return f"{kind_}.{meth}", getattr(X, meth), (), {}
     _mk2(_k)
 
+# sums with a single part, and with a dense part in first / last place: what they return must not be one of the parts
+for _parts in (("tensor",), ("sptensor",), ("ktensor",), ("ttensor",), ("tensor", "tensor"), ("tensor", "sptensor"), ("sptensor", "tensor"), ("ktensor", "tensor")):
+    for _meth in ("full", "double", "to_tensor", "copy", "__neg__", "__pos__"):
+        def _mk2s(parts, meth):
+            @entry(f"sumtensor[{'+'.join(parts)}].{meth}", (2, 3))
+            def _a(e, parts=parts, meth=meth):
+                return f"sumtensor.{meth}", getattr(ttb.sumtensor([e.holder(k_) for k_ in parts]), meth), (), {}
+        _mk2s(_parts, _meth)
+
 
 @entry("tensor.find", ALLN)
 def _(e):
